@@ -164,7 +164,8 @@ def _copies_all_but_last(f, call):
 # the four Reference::get_* are textual siblings; one of them tidied on its own (benign X6-1: cursors replaced by indices in get_labels
 # only) differs in spelling. Each member is decided on its own by the absolute obligations below (cell-only, same depth, placement,
 # repetition mapped, copy for all but the last offset, one output per element and offset): the comparison of spellings is evidence only.
-ADVISORY = [('R-CLONE', r'^Reference::get_\*/')]
+ADVISORY = [('R-CLONE', r'^Reference::get_\*/'), ('R-CLONE', r'^Cell::get_\*\[apply_repetitions\]/'),
+            ('R-CLONE', r'^Cell::get_\{polygons,labels\}\[own\]/'), ('R-SHAPE', r'^Cell::get_\*/apply-range'), ('R-SHAPE', r'^Cell::get_\w+/(start|order)$')]   # all decided by R-MODEL.collect
 
 
 def check_reference_collectors(ctx, db):
@@ -228,6 +229,118 @@ def check_reference_collectors(ctx, db):
                 ok = okt and unc and oko
                 why = 'inner loop trip %s, outer loop trip %s, append unconditional: %s, offset address %s' % (ti, to, unc, off)
         ctx.check(ok, 'R-AGG', key + '/one-output-per-element-and-offset', f.loc(), 'array.count x offsets.count outputs: iteration (i, k) places the element at origin + offsets[k] and appends it', why)
+
+
+COLLECTOR_ARRAYS = {'polygons': 'polygon_array', 'flexpaths': 'flexpath_array', 'robustpaths': 'robustpath_array', 'labels': 'label_array'}
+
+
+def _collector_model(db, e, filt, rep, depth):
+    """Cell::get_<e> interpreted (sa/minieval) on a cell with three own elements (tags 7, 9, 7) and two references, the output
+    array holding two earlier entries. Allocation, element copy, apply_repetition (appends two copies) and the reference's
+    collector (appends one element that carries a repetition of its own) are answered by the harness and logged."""
+    from .. import minieval as M
+    f = db.fn('gdstk::Cell::get_' + e)
+    own = [M.Obj(tag=(7 if k % 2 == 0 else 9), ident=('own', k)) for k in range(3)]
+    pre = [M.Obj(ident=('pre', k)) for k in range(2)]
+    refs = [M.Obj(ident=('ref', k)) for k in range(2)]
+
+    def arr(lst):
+        return M.Obj(items=M.Ptr(lst, 0) if lst else 0, count=len(lst), capacity=len(lst))
+    this = M.Obj(**{a: arr([]) for a in COLLECTOR_ARRAYS.values()})
+    this[COLLECTOR_ARRAYS[e]] = arr(own)
+    this['reference_array'] = arr(refs)
+    result = arr(list(pre))
+    log = []
+    ref = [None]
+    fresh = [0]
+
+    def push(r, items):
+        lst = list(r['items'].arr[r['items'].i:r['items'].i + r['count']]) + items
+        r['items'], r['count'], r['capacity'] = M.Ptr(lst, 0), len(lst), len(lst)
+
+    def extra(callee, args, node):
+        c = callee or ''
+        short = c.split('::')[-1]
+        if short == 'allocate_clear':
+            fresh[0] += 1
+            return (M.Obj(ident=('new', fresh[0])),)
+        if short == 'copy_from' and not c.startswith('gdstk::Array<'):
+            o = ref[0].call_object()
+            o['src'], o['tag'] = args[0].get('ident'), args[0].get('tag')
+            return (None,)
+        if short == 'apply_repetition':
+            o = ref[0].call_object()
+            log.append(('rep', o.get('src') or o.get('ident')))
+            if args[0] is not result:
+                log.append(('rep-elsewhere', o.get('src')))
+            push(result, [M.Obj(ident=('copy', o.get('src'), k)) for k in range(2)])
+            return (None,)
+        if short == 'get_' + e and c.startswith('gdstk::Reference::'):
+            o = ref[0].call_object()
+            log.append(('ref', o.get('ident'), tuple('result' if a is result else '?' if isinstance(a, M.Obj) else int(a) for a in args)))
+            push(result, [M.Obj(ident=('from', o.get('ident')))])
+            return (None,)
+        if short == 'to_polygons':
+            return (0,)
+        return None
+    mi = M.Mini(db, hook=M.array_hook(ref, extra), budget=100000)
+    mi.obj_store = True
+    ref[0] = mi
+    env = {'this': this}
+    for p in f.params:
+        env[p['n']] = {'apply_repetitions': rep, 'include_paths': 0, 'depth': depth, 'filter': filt, 'tag': 7, 'result': result}[p['n']]
+    try:
+        mi.run(f.body, env)
+    except M.Return:
+        pass
+    out = [(x.get('ident'), x.get('src')) for x in result['items'].arr[result['items'].i:result['items'].i + result['count']]]
+    return f, out, log
+
+
+def check_collectors_model(ctx, db):
+    """R-MODEL.collect: each Cell::get_<elements> run on the small cell above, for filter off (and on, where the filter is a tag
+    comparison), repetitions applied or not, depth 0 / 1 / 3 / -1. Decided from the log and the output array: earlier entries stay,
+    the cell's own (selected) elements are copied once each, apply_repetition runs exactly once on each fresh copy and on nothing
+    else (not on earlier entries, not on what references or repetitions appended), every reference is descended exactly when
+    depth != 0 with depth - 1 (or -1) and the caller's other arguments."""
+    from .. import minieval as M
+    runs = 0
+    for e in ELEMS:
+        for filt in ((0, 1) if e in ('polygons', 'labels') else (0,)):
+            for rep in (0, 1):
+                for depth in (0, 1, 3, -1):
+                    runs += 1
+                    why = None
+                    try:
+                        f, out, log = _collector_model(db, e, filt, rep, depth)
+                    except M.OutOfBounds as ex:
+                        f, out, log, why = db.fn('gdstk::Cell::get_' + e), [], [], str(ex)
+                    ctx.touch(f)
+                    sel = [('own', k) for k in range(3) if not filt or k % 2 == 0]
+                    if why is None:
+                        if [i_ for i_, _s in out[:2]] != [('pre', 0), ('pre', 1)]:
+                            why = 'the entries already in the output were disturbed: %s' % (out[:2],)
+                        elif sorted(s_ for i_, s_ in out if i_[0] == 'new') != sel:
+                            why = 'own elements copied: %s, expected one copy of each of %s' % (sorted(s_ for i_, s_ in out if i_[0] == 'new'), sel)
+                        elif sorted(x[1] for x in log if x[0] == 'rep') != (sel if rep else []):
+                            why = 'apply_repetition ran on %s, expected exactly once on each fresh copy %s' % ([x[1] for x in log if x[0] == 'rep'], sel if rep else [])
+                        elif any(x[0] == 'rep-elsewhere' for x in log):
+                            why = 'apply_repetition appends to an array other than the output'
+                        else:
+                            calls = [x for x in log if x[0] == 'ref']
+                            want_d = depth - 1 if depth > 0 else -1
+                            names = [p['n'] for p in f.params]
+                            want = tuple({'apply_repetitions': rep, 'include_paths': 0, 'depth': want_d, 'filter': filt, 'tag': 7, 'result': 'result'}[n_] for n_ in names)
+                            if depth == 0 and calls:
+                                why = 'references are descended although depth is 0'
+                            elif depth != 0 and [x[1] for x in calls] != [('ref', 0), ('ref', 1)]:
+                                why = 'references descended: %s, expected each of the two once' % [x[1] for x in calls]
+                            elif depth != 0 and any(x[2] != want for x in calls):
+                                why = 'a reference is asked with %s = %s, expected %s' % (tuple(names), calls[0][2], want)
+                    ctx.check(why is None, 'R-MODEL.collect', 'Cell::get_%s/filter=%d,repetitions=%d,depth=%d' % (e, filt, rep, depth), f.loc(),
+                              'own elements copied once, repetitions applied once to exactly the fresh copies, references descended iff depth != 0 with depth - 1', why)
+    ctx.explored['valuations'] += runs
+    ctx.require('R-MODEL.collect scenarios', runs, 48)
 
 
 def check_cell_collectors(ctx, db):
@@ -359,6 +472,7 @@ def run(ctx):
     ctx.attempt(C11.check_reference_maps_repetitions, ctx, db)
     ctx.attempt(C11.check_apply_repetition, ctx, db)     # flatten / get_*(apply_repetitions) expand through apply_repetition: the copies carry no repetition, the original keeps none
     ctx.attempt(check_cell_collectors, ctx, db)
+    ctx.attempt(check_collectors_model, ctx, db)
     ctx.attempt(check_flatten, ctx, db)
     # a repetition kept attached under a reference is mapped by the placement's linear part: exact identities (C11's obligation, shared)
     from . import C11, C10
